@@ -34,6 +34,7 @@ func init() {
 			ruleC10O15(r)
 			ruleC10O16(r)
 			ruleC10O17(r)
+			ruleSendersOutliveReceivers(r, "O19", "/iscp", "/wire", "/transport/reconnect", "/transport/multi", "/transport/quic", "/transport/webtransport", "/transport/websocket")
 			le10 := newLockEngine(r.P)
 			ruleC10O18(r, le10)
 			ruleW4(r, le10, "O13")
@@ -1148,4 +1149,87 @@ func ruleC10O18(r *Run, le *LockEngine) {
 		}
 	}
 	r.Check(fnName(cl)+" waits for the redial", common != "", p.pos(cl.Pos()), fnName(cl), fmt.Sprintf("locks held across the dial in reconnect: %v; locks the close path acquires: %v — with none in common Close returns while the dial is still in flight", keysOf(held), keysOf(taken)))
+}
+
+// ruleSendersOutliveReceivers: "no goroutine started by the library survives". A goroutine that hands values to another
+// one with a plain send on a channel field can only end if the send does: where the receiving side takes from that
+// field in a select that also watches a Done() channel — it may stop receiving while the channel is still open — a plain
+// send on the field blocks for ever once the buffer is full, and the sender (with everything it would have cleaned up
+// in its defers) is leaked. Such a sender must be able to give up as well: its send is a case of a select that has a
+// Done() case too.
+func ruleSendersOutliveReceivers(r *Run, id string, pkgs ...string) {
+	r.Begin(id, "a sender can give up when its receiver can: for every channel field that some function receives from in a select with a Done() case, no function sends on that field with a plain send (outside a select with a Done() case)", 0)
+	p := r.P
+	inPkgs := func(fn *ssa.Function) bool {
+		for _, pk := range pkgs {
+			if fnPkgPath(fn) == modPath+pk {
+				return true
+			}
+		}
+		return false
+	}
+	fieldOfChan := func(v ssa.Value) string {
+		c := canonVal(v)
+		if ct, isCT := c.(*ssa.ChangeType); isCT {
+			c = canonVal(ct.X)
+		}
+		if u, isU := c.(*ssa.UnOp); isU && u.Op == token.MUL {
+			return fieldKeyOfAddr(u.X)
+		}
+		return ""
+	}
+	quitting := map[string]string{} // field -> where a receiver may leave
+	for _, fn := range p.Funcs {
+		if !inPkgs(fn) || fn.Blocks == nil {
+			continue
+		}
+		allInstrs(fn, func(ins ssa.Instruction) {
+			sel, ok := ins.(*ssa.Select)
+			if !ok {
+				return
+			}
+			hasDone := false
+			for _, st := range sel.States {
+				if st.Dir == types.RecvOnly && doneCtx(st.Chan) != nil {
+					hasDone = true
+				}
+			}
+			if !hasDone {
+				return
+			}
+			for _, st := range sel.States {
+				if st.Dir != types.RecvOnly || doneCtx(st.Chan) != nil {
+					continue
+				}
+				if fk := fieldOfChan(st.Chan); fk != "" {
+					quitting[fk] = fnName(fn) + " (" + posOf(p, sel) + ")"
+				}
+			}
+		})
+	}
+	n := 0
+	for _, fn := range p.Funcs {
+		if !inPkgs(fn) || fn.Blocks == nil {
+			continue
+		}
+		k := 0
+		allInstrs(fn, func(ins ssa.Instruction) {
+			snd, ok := ins.(*ssa.Send)
+			if !ok {
+				return
+			}
+			fk := fieldOfChan(snd.Chan)
+			where, can := quitting[fk]
+			if !can {
+				return
+			}
+			n++
+			k++
+			r.Check(fmt.Sprintf("%s send#%d on %s can give up", fnName(fn), k, shortKey(fk)), false, posOf(p, snd), fnName(fn), "plain send on a channel whose receiver "+where+" may stop receiving when its context ends: once the buffer is full this goroutine blocks for ever and is leaked with its deferred clean-up")
+		})
+	}
+	r.Stat("fields_with_a_quitting_receiver", len(quitting))
+	if n == 0 {
+		r.Check("plain sends to quitting receivers", true, "", "", fmt.Sprintf("%d channel fields have a receiver that may leave on Done(); none is sent to with a plain send", len(quitting)))
+	}
 }
